@@ -193,6 +193,20 @@ pub fn c14(c: &mut Checker) {
     if !c.found.is_empty() {
         return;
     }
+    // the linkage above compares the message with the report the code made; that this report is
+    // the right one for the payload (the expected length is the target's arity, the accepted
+    // list is the target's) is what the reference interpreter says
+    if crate::checks::model_applies(c.scn) && !matches!(base.outcome, Outcome::Panic(_)) {
+        let exp = c.model(&c.scn.doc);
+        let mut out = vec![];
+        if crate::rules::m_first("M-first", &exp, &base, &mut out) {
+            c.stats.bump("first_report_checked_against_reference_interpreter", 1);
+        }
+        c.record(out, &base_cfg, &base);
+        if !c.found.is_empty() {
+            return;
+        }
+    }
     // where a field has its own error type, the place at which its error is handed to the
     // container's error type is the place the built-in types print: it must be the field's own
     // position (the linkage above compares two runs of the same code and cannot see this)
